@@ -170,6 +170,64 @@ mclose_kind!(mclose_arc_crossbeam, MultiCrossbeamArc<u32, 64, 4, NONE>);
 mclose_kind!(mclose_ogre_atomic, MultiAtomicOgreArc<u32, 64, 4, NONE>);
 mclose_kind!(mclose_ogre_fullsync, MultiFullSyncOgreArc<u32, 64, 4, NONE>);
 
+/// C12: Multi executors removed individually with `flush_and_cancel_executor` at different moments (right after being spawned,
+/// after some events, concurrently with sends); each close callback must run exactly once, find an ended status
+/// (ProgrammaticallyEnded only if the executor had been scheduled to finish) and finish >= start.
+async fn run_mcancel(seed: u64) -> (Vec<String>, Vec<(String, String)>) {
+    use reactive_mutiny::stream_executor::ExecutorStatus;
+    let mut rng = Rng::new(seed ^ 0xCA);
+    let multi = Arc::new(MultiAtomicArc::<u32, 64, 4, METRICS>::new("vh-mcancel"));
+    let n = rng.range(1, 3) as usize;
+    let log = Arc::new(Mutex::new(Vec::<String>::new()));
+    let stats = Arc::new(Mutex::new(Vec::<(usize, bool, bool, bool)>::new()));   // (executor, ended, programmatically, finish>=start)
+    let mut viol = vec![];
+    for e in 0..n {
+        let (lg, lg2, st) = (log.clone(), log.clone(), stats.clone());
+        multi.spawn_non_futures_non_fallible_executor(1, format!("p{e}"),
+            move |s| s.inspect(move |v| lg.lock().unwrap().push(format!("processed {e} {}", **v))),
+            move |x| { let (lg, st) = (lg2.clone(), st.clone()); async move {
+                let status = x.executor_status().load(SeqCst);
+                st.lock().unwrap().push((e, status == ExecutorStatus::StreamEnded || status == ExecutorStatus::ProgrammaticallyEnded, status == ExecutorStatus::ProgrammaticallyEnded,
+                                         x.execution_finish_delta_nanos() >= x.execution_start_delta_nanos()));
+                lg.lock().unwrap().push(format!("callback {e}"));
+            } }).await.expect("spawn");
+        // sometimes give the executor task the chance to start before anything else happens
+        if rng.chance(1, 2) { tokio::task::yield_now().await; tokio::time::sleep(Duration::from_millis(1)).await; }
+    }
+    let n_events = rng.range(0, 4) as u32;
+    let cancel_first = rng.chance(1, 2);
+    if !cancel_first { for i in 0..n_events { let _ = multi.send(10 + i); } tokio::time::sleep(Duration::from_millis(2)).await; }
+    // remove a random subset individually, the rest by close()
+    let mut removed = vec![];
+    for e in 0..n { if rng.chance(2, 3) {
+        log.lock().unwrap().push(format!("cancel {e}"));
+        let ok = multi.flush_and_cancel_executor(format!("p{e}"), Duration::ZERO).await;
+        if !ok { viol.push(("cancel_refused".into(), format!("flush_and_cancel_executor answered false for the spawned executor p{e}"))); }
+        removed.push(e);
+    } }
+    if cancel_first { for i in 0..n_events { let _ = multi.send(10 + i); } }
+    tokio::time::sleep(Duration::from_millis(5)).await;
+    log.lock().unwrap().push("closecalled".into());
+    let ok = multi.close(Duration::ZERO).await;
+    log.lock().unwrap().push(format!("closereturned {ok}"));
+    tokio::time::sleep(Duration::from_millis(20)).await;
+    let trace = log.lock().unwrap().clone();
+    let st = stats.lock().unwrap().clone();
+    for e in 0..n {
+        let cbs = trace.iter().filter(|l| **l == format!("callback {e}")).count();
+        if cbs != 1 { viol.push(("close_callback_count".into(), format!("the close callback of Multi executor p{e} ran {cbs} times (removed individually: {}; {} executors, {n_events} events)", removed.contains(&e), n))); }
+        if let Some(x) = st.iter().find(|x| x.0 == e) {
+            if !x.1 { viol.push(("status_not_ended".into(), format!("the close callback of executor p{e} found a non-ended status"))); }
+            if x.2 && !removed.contains(&e) { viol.push(("programmatically_ended_unscheduled".into(), format!("executor p{e} reports ProgrammaticallyEnded although it was never scheduled to finish"))); }
+            if !x.3 { viol.push(("finish_before_start".into(), format!("executor p{e} (removed individually: {}): finish time is before the start time", removed.contains(&e)))); }
+        }
+        if let Some(cb) = trace.iter().position(|l| *l == format!("callback {e}")) {
+            if trace.iter().skip(cb).any(|l| l.starts_with(&format!("processed {e} "))) { viol.push(("callback_before_last_item".into(), format!("executor p{e} processed an item after its close callback"))); }
+        }
+    }
+    (trace, viol)
+}
+
 fn runtime(multi: bool) -> tokio::runtime::Runtime {
     if multi { tokio::runtime::Builder::new_multi_thread().worker_threads(4).enable_all().build().unwrap() }
     else { tokio::runtime::Builder::new_current_thread().enable_all().start_paused(true).build().unwrap() }
@@ -186,6 +244,22 @@ fn main() {
     let mut out = TraceOut::new(&a.get("trace", ""));
     let mut rep = Report::new(&format!("exec/{sub}"));
     const VARIANTS: [&str; 4] = ["futfallible", "fut", "fallible", "plain"];
+    if sub == "mcancel" {
+        for i in 0..runs {
+            let seed = if a.kv.contains_key("seedx") { a.num("seedx", 0) } else { seed0.wrapping_mul(1_000_003).wrapping_add(i) };
+            let rt = runtime(multi);
+            let (trace, viol) = rt.block_on(run_mcancel(seed));
+            drop(rt);
+            rep.add_run(&trace, trace.iter().any(|l| l.starts_with("cancel")), "mcancel", "Completed");
+            for (k, d) in viol {
+                let header = vec![format!("cmd exec sub=mcancel runs=1 seedx={seed}"), format!("violation {k}: {d}")];
+                let p = write_replay(&replay_dir, &format!("{pid}-exec-mcancel-seed{seed}-{k}"), &header, &trace);
+                rep.violations.push(Violation { run: i, seed, kind: k, detail: d, replay: p });
+            }
+        }
+        rep.print();
+        return
+    }
     if sub == "mclose" {
         const KINDS: [&str; 5] = ["arc_atomic", "arc_fullsync", "arc_crossbeam", "ogre_atomic", "ogre_fullsync"];
         for i in 0..runs {
